@@ -615,7 +615,8 @@ def plan_ord(ctx, colls):
         futs += ord_cover_jobs(ctx, colls, 4, [1, 9], 2, writes=True)
     futs += random_jobs(ctx, colls, 2 if q else 8, {"keys": 10, "steps": 2500 if q else 12000, "seglen": 90})
     futs += random_jobs(ctx, colls, 1 if q else 3, {"keys": 40, "steps": 1200 if q else 6000, "seglen": 400}, tag="-wide")
-    futs += ord_scale_jobs(ctx, colls, deep=300000)
+    # (quick tier: the deep run belongs to the properties that speak about look-ups, removals and steps)
+    futs += ord_scale_jobs(ctx, colls, deep=300000 if (not q or ctx.pid in ("C04", "C05", "C09")) else 0)
     # instance-counting payloads: a value dropped twice, or never, by an entry move, a removal, clear or the drop
     # of the collection shows as a non-zero residue when the instance is dropped (C04 / C05: "never duplicated or lost")
     for cc in sorted({kind_of(c) + "-cnt" for c in colls}):
